@@ -68,7 +68,11 @@ fn contexts() -> (Vec<MCtx>, MLists) {
     let mut bytes = std::collections::BTreeMap::new();
     bytes.insert("b".to_string(), [sb(b"ab")].into_iter().collect::<BTreeSet<V>>());
     lists.insert(1, bytes);
-    (vec![c0, c1, c2], lists)
+    // a context in which the non-mapped arguments are absent
+    let mut c3 = MCtx::new();
+    c3.insert("xs".into(), V::arr(Ty::Bytes, vec![sb(b"x"), sb(b"ab")]));
+    c3.insert("i".into(), V::Int(1));
+    (vec![c0, c1, c2, c3], lists)
 }
 
 fn value_of(fv: &FilterValue, ctx: &ExecutionContext<'_>) -> Result<V, Ty> {
@@ -156,6 +160,7 @@ fn scenarios(tier: Tier) -> Vec<Scenario> {
         v.push(Scenario { name: format!("same filter, same context after warm-up on another [{k}]"), warmup: vec![Act::Exec(k, 0)], threads: vec![vec![Act::Exec(k, 1)], vec![Act::Exec(k, 1)]] });
         v.push(Scenario { name: format!("same filter, different contexts after warm-up [{k}]"), warmup: vec![Act::Exec(k, 0)], threads: vec![vec![Act::Exec(k, 1)], vec![Act::Exec(k, 0)]] });
         v.push(Scenario { name: format!("same filter, crossing context order [{k}]"), warmup: vec![], threads: vec![vec![Act::Exec(k, 0), Act::Exec(k, 1)], vec![Act::Exec(k, 1), Act::Exec(k, 0)]] });
+        v.push(Scenario { name: format!("same filter, contexts with present / absent fields [{k}]"), warmup: vec![Act::Exec(k, 0)], threads: vec![vec![Act::Exec(k, 3), Act::Exec(k, 0)], vec![Act::Exec(k, 0), Act::Exec(k, 3)]] });
         v.push(Scenario { name: format!("compile and execute on both threads [{k}]"), warmup: vec![], threads: vec![vec![Act::CompileExec(k, 0)], vec![Act::CompileExec(k, 1)]] });
         v.push(Scenario { name: format!("shared filter vs private recompilation [{k}]"), warmup: vec![Act::Exec(k, 1)], threads: vec![vec![Act::Exec(k, 0)], vec![Act::CompileExec(k, 1), Act::Exec(k, 2)]] });
     }
@@ -232,7 +237,7 @@ pub fn run(tier: Tier, seed: u64) -> i32 {
     run.assume("interleavings are explored at the granularity of the scheduling points (engine hooks: filter.execute, filter_value.execute, ctx.get_field_value, regex.is_match, in_list.match_value, contains.select_searcher; every harness function / matcher call); no preemption inside dependency code between points; weak-memory effects are invisible");
     let w = Arc::new(World::new());
     let bound = tier.pick(2usize, 3usize);
-    let cap = tier.pick(4_000u64, 60_000u64);
+    let cap = tier.pick(4_000u64, 12_000u64);
     let mut total = ExploreStats::default();
     let mut scen_count = 0u64;
     let mut multi_outcome = 0u64;
@@ -258,6 +263,43 @@ pub fn run(tier: Tier, seed: u64) -> i32 {
             return 2;
         }
         run.count("replay_determinism_checked", 1);
+    }
+
+    // repeated executions and recompilations agree, whatever was executed in between (single thread)
+    {
+        let w1 = World::new();
+        let w2 = World::new();
+        let nf = w1.filters.len();
+        let nc = w1.ctxs.len();
+        // forward and reverse sweeps over (filter, context) on one world, against a second compilation
+        let mut disagreements = Vec::new();
+        for round in 0..3 {
+            let order: Vec<(usize, usize)> = match round {
+                0 => (0..nf).flat_map(|k| (0..nc).map(move |j| (k, j))).collect(),
+                1 => (0..nf).rev().flat_map(|k| (0..nc).rev().map(move |j| (k, j))).collect(),
+                _ => (0..nc).flat_map(|j| (0..nf).map(move |k| (k, j))).collect(),
+            };
+            for (k, j) in order {
+                let a = guarded(|| w1.filters[k].execute(&w1.ctxs[j]).expect("same scheme"));
+                let b = guarded(|| w2.filters[k].execute(&w2.ctxs[j]).expect("same scheme"));
+                run.eval(2);
+                run.count("repeated_executions", 2);
+                if a != Ok(w.base_f[k][j]) || b != Ok(w.base_f[k][j]) {
+                    disagreements.push(format!("filter {:?} on context {j}: first execution {}, repeated {a:?}, recompiled {b:?}", FILTERS[k], w.base_f[k][j]));
+                }
+            }
+        }
+        for k in 0..w1.values.len() {
+            for j in (0..nc).rev() {
+                let a = guarded(|| value_of(&w1.values[k], &w1.ctxs[j]));
+                if a != Ok(w.base_v[k][j].clone()) {
+                    disagreements.push(format!("value {:?} on context {j}: repeated execution differs", VALUES[k]));
+                }
+            }
+        }
+        for d in disagreements {
+            run.violation(format!("{ID}:repeated-execution:{d}"), format!("repeated / recompiled execution disagrees: {d}"), json!({"kind": "c18-repeat"}));
+        }
     }
 
     // the canary: the explorer must be able to produce more than one outcome
